@@ -45,7 +45,69 @@ use varlink::{Connection, ErrorKind, MethodCall, Reply};
 
 pub struct ClientSuite;
 
-type Call = MethodCall<Value, Value, varlink::Error>;
+/// a typed reply (what generated client code uses): the parameters of a reply may fail to decode into it
+#[derive(serde_derive::Serialize, serde_derive::Deserialize, Debug)]
+pub struct TypedReply {
+    pub i: i64,
+    #[serde(default, skip_serializing_if = "Option::is_none")]
+    pub s: Option<String>,
+}
+
+/// a call object with `MReply = Value` or `MReply = TypedReply`
+pub enum Call {
+    V(MethodCall<Value, Value, varlink::Error>),
+    T(MethodCall<Value, TypedReply, varlink::Error>),
+}
+
+fn typed_value(r: Result<TypedReply, varlink::Error>) -> Result<Value, varlink::Error> {
+    r.map(|t| serde_json::to_value(t).unwrap())
+}
+
+impl Call {
+    fn new(conn: Arc<RwLock<Connection>>, method: String, params: Value, typed: bool) -> Call {
+        if typed {
+            Call::T(MethodCall::new(conn, method, params))
+        } else {
+            Call::V(MethodCall::new(conn, method, params))
+        }
+    }
+    fn call(&mut self) -> Result<Value, varlink::Error> {
+        match self {
+            Call::V(c) => c.call(),
+            Call::T(c) => typed_value(c.call()),
+        }
+    }
+    fn upgrade(&mut self) -> Result<Value, varlink::Error> {
+        match self {
+            Call::V(c) => c.upgrade(),
+            Call::T(c) => typed_value(c.upgrade()),
+        }
+    }
+    fn recv(&mut self) -> Result<Value, varlink::Error> {
+        match self {
+            Call::V(c) => c.recv(),
+            Call::T(c) => typed_value(c.recv()),
+        }
+    }
+    fn oneway(&mut self) -> Result<(), varlink::Error> {
+        match self {
+            Call::V(c) => c.oneway(),
+            Call::T(c) => c.oneway(),
+        }
+    }
+    fn more(&mut self) -> Result<(), varlink::Error> {
+        match self {
+            Call::V(c) => c.more().map(|_| ()),
+            Call::T(c) => c.more().map(|_| ()),
+        }
+    }
+    fn next(&mut self) -> Option<Result<Value, varlink::Error>> {
+        match self {
+            Call::V(c) => c.next(),
+            Call::T(c) => c.next().map(typed_value),
+        }
+    }
+}
 
 const MARK_IOERR: u8 = 0x01;
 const MARK_RESET: u8 = 0x02;
@@ -194,7 +256,7 @@ impl Ctl {
         let before = st.acks[t];
         st.go[t] = true;
         self.cv.notify_all();
-        let deadline = std::time::Instant::now() + Duration::from_secs(5);
+        let deadline = std::time::Instant::now() + Duration::from_secs(3);
         while st.acks[t] == before {
             let now = std::time::Instant::now();
             if now >= deadline {
@@ -527,12 +589,23 @@ fn exec_op(objs: &mut HashMap<usize, Call>, op: &Op, blocked: &AtomicBool) -> Sx
     r
 }
 
+/// a panic inside the library (e.g. a poisoned lock) is an observation of that operation
+fn exec_op_caught(objs: &mut HashMap<usize, Call>, op: &Op, blocked: &AtomicBool) -> Sx {
+    match std::panic::catch_unwind(std::panic::AssertUnwindSafe(|| exec_op(objs, op, blocked))) {
+        Ok(r) => r,
+        Err(_) => sx::tagged("err", vec![sx::tagged("other", vec![sx::xs("panic")])]),
+    }
+}
+
 fn is_blocked(res: &Sx) -> bool {
     res.render() == "(err blocked)"
 }
 
 fn slots_sx(conn: &Arc<RwLock<Connection>>) -> Sx {
-    let c = conn.read().unwrap();
+    let c = match conn.read() {
+        Ok(c) => c,
+        Err(p) => p.into_inner(),
+    };
     sx::tagged("slots", vec![sx::boolean(c.reader.is_some()), sx::boolean(c.writer.is_some())])
 }
 
@@ -542,12 +615,13 @@ fn run_seq(input: &Sx) -> Sx {
     let ops: Vec<Op> = l[2].as_list().unwrap()[1..].iter().map(parse_op).collect();
     let groups = parse_groups(&l[3]);
     let wbudget = l[4].as_usize();
+    let typed = l.get(5).map(|r| r.render() == "(rtype typed)").unwrap_or(false);
     let rig = rig(wbudget, None);
     let server = scripted_server(rig.server_end.try_clone().unwrap(), groups);
     drop(rig.server_end);
     let mut objs: HashMap<usize, Call> = HashMap::new();
     for (i, (m, p)) in objs_spec.iter().enumerate() {
-        objs.insert(i, MethodCall::new(rig.conn.clone(), m.clone(), p.clone()));
+        objs.insert(i, Call::new(rig.conn.clone(), m.clone(), p.clone(), typed));
     }
     let mut res = vec![sx::atom("res")];
     let mut blocked = false;
@@ -596,9 +670,10 @@ fn run_gated(input: &Sx) -> Sx {
     let mut handles = Vec::new();
     for (t, prog) in progs.iter().cloned().enumerate() {
         let mut objs: HashMap<usize, Call> = HashMap::new();
+        let typed = false;
         for (i, (m, p)) in objs_spec.iter().enumerate() {
             if owner.get(&i) == Some(&t) {
-                objs.insert(i, MethodCall::new(rig.conn.clone(), m.clone(), p.clone()));
+                objs.insert(i, Call::new(rig.conn.clone(), m.clone(), p.clone(), typed));
             }
         }
         let ctl = ctl.clone();
@@ -611,7 +686,7 @@ fn run_gated(input: &Sx) -> Sx {
                 if ctl.st.lock().unwrap().abort {
                     break;
                 }
-                let r = exec_op(&mut objs, op, &blocked);
+                let r = exec_op_caught(&mut objs, op, &blocked);
                 trace.lock().unwrap().push(sx::list(vec![sx::nat(t), r]));
             }
             ctl.finish(t);
@@ -716,8 +791,9 @@ fn run_free(input: &Sx) -> Sx {
         let mut rng = Rng::new(seed.wrapping_mul(1000).wrapping_add(t as u64));
         handles.push(std::thread::spawn(move || {
             let mut results: Vec<Sx> = Vec::new();
-            let mut retries = 0usize;
             start.wait();
+            // a connection that never becomes free again must not keep the threads spinning
+            let deadline = std::time::Instant::now() + Duration::from_secs(3);
             let mut cur: HashMap<usize, Call> = HashMap::new();
             for op in &prog {
                 let i = op.obj();
@@ -728,11 +804,10 @@ fn run_free(input: &Sx) -> Sx {
                     let sends = matches!(op, Op::Call(_) | Op::Upgrade(_) | Op::Oneway(_) | Op::More(_));
                     if sends {
                         let (m, p) = spec[i].clone();
-                        cur.insert(i, MethodCall::new(conn.clone(), m, p));
+                        cur.insert(i, Call::new(conn.clone(), m, p, false));
                     }
-                    let r = exec_op(&mut cur, op, &blocked);
-                    if sends && r.render() == "(err busy)" && retries < 2_000_000 {
-                        retries += 1;
+                    let r = exec_op_caught(&mut cur, op, &blocked);
+                    if sends && r.render() == "(err busy)" && std::time::Instant::now() < deadline {
                         continue;
                     }
                     results.push(r);
@@ -802,7 +877,7 @@ fn replay_linearisation(objs_spec: &[(String, Value)], progs: &[Vec<Op>], lin: &
             }
             if sends {
                 let (m, p) = objs_spec[op.obj()].clone();
-                objs[t].insert(op.obj(), MethodCall::new(rig.conn.clone(), m, p));
+                objs[t].insert(op.obj(), Call::new(rig.conn.clone(), m, p, false));
             }
             let r = exec_op(&mut objs[t], op, &rig.blocked);
             results[t].push(r);
@@ -897,7 +972,30 @@ pub fn gen_error_params(rng: &mut Rng) -> Option<Value> {
     }
 }
 
+/// parameters for a reply read by a `TypedReply` client: well-typed, ill-typed, missing, extra
+fn gen_typed_params(rng: &mut Rng) -> Option<Value> {
+    let n = rng.below(50) as i64 - 5;
+    match rng.below(20) {
+        0..=7 => Some(json!({"i": n})),
+        8 => Some(json!({"i": n, "s": "text"})),
+        9 => Some(json!({"i": n, "s": null})),
+        10 => Some(json!({"i": n, "extra": [1, 2]})),
+        11 => Some(json!({"i": "done"})),
+        12 => Some(json!({})),
+        13 => None,
+        14 => Some(json!({"s": "only"})),
+        15 => Some(json!([n])),
+        16 => Some(json!({"i": 1.5})),
+        17 => Some(json!({"i": 9223372036854775808u64})),
+        18 => Some(json!({"i": n, "s": 7})),
+        _ => Some(Value::Null),
+    }
+}
+
 fn gen_ok_params(rng: &mut Rng, tok: &str) -> Option<Value> {
+    if tok == "typed" {
+        return gen_typed_params(rng);
+    }
     match rng.below(10) {
         0 => None,
         1 => Some(Value::Null),
@@ -946,6 +1044,40 @@ pub fn frame_sx(bytes: &[u8]) -> Sx {
     sx::tagged("f", vec![sx::bs(bytes), dec_sx(bytes)])
 }
 
+/// what `serde_json::from_value::<TypedReply>` makes of the parameters of a reply (absent: `{}`)
+fn typed_view(bytes: &[u8]) -> Sx {
+    match serde_json::from_slice::<Reply>(bytes) {
+        Ok(r) => {
+            let p = r.parameters.unwrap_or_else(|| Value::Object(serde_json::Map::new()));
+            match serde_json::from_value::<TypedReply>(p) {
+                Ok(t) => sx::json(&serde_json::to_value(t).unwrap()),
+                Err(_) => sx::atom("-"),
+            }
+        }
+        Err(_) => sx::atom("-"),
+    }
+}
+
+/// add the typed view to every frame of a case with a typed reply
+fn annotate_typed(frame: &Sx) -> Sx {
+    let l = match frame.as_list() {
+        Some(l) => l,
+        None => return frame.clone(),
+    };
+    match l[0].as_atom() {
+        Some("f") => {
+            let b = l[1].as_bytes().unwrap();
+            sx::tagged("f", vec![l[1].clone(), l[2].clone(), typed_view(&b)])
+        }
+        Some("part") => {
+            let b = l[1].as_bytes().unwrap();
+            let cut = if b.is_empty() { &b[..] } else { &b[..b.len() - 1] };
+            sx::tagged("part", vec![l[1].clone(), l[2].clone(), typed_view(cut)])
+        }
+        _ => frame.clone(),
+    }
+}
+
 pub fn part_sx(bytes: &[u8]) -> Sx {
     let d = if bytes.is_empty() { sx::atom("bad") } else { dec_sx(&bytes[..bytes.len() - 1]) };
     sx::tagged("part", vec![sx::bs(bytes), d])
@@ -978,6 +1110,7 @@ struct SeqGen {
     // generator-side guess of the client state
     outstanding: Option<usize>,
     iter_left: usize,
+    typed: bool,
 }
 
 impl SeqGen {
@@ -1001,6 +1134,7 @@ impl SeqGen {
 
     /// the group the server sends for a request of this kind; perturbed now and then
     fn push_group(&mut self, rng: &mut Rng, kind: &str, tok: &str) -> usize {
+        let tok = if self.typed { "typed" } else { tok };
         let mut frames = Vec::new();
         let mut close = false;
         let mut k = 0;
@@ -1086,7 +1220,8 @@ impl SeqGen {
 }
 
 fn gen_seq(rng: &mut Rng, maxlen: usize) -> (Sx, Vec<String>) {
-    let mut g = SeqGen { objs: Vec::new(), ops: Vec::new(), groups: Vec::new(), tags: Vec::new(), outstanding: None, iter_left: 0 };
+    let typed = rng.chance(1, 3);
+    let mut g = SeqGen { objs: Vec::new(), ops: Vec::new(), groups: Vec::new(), tags: Vec::new(), outstanding: None, iter_left: 0, typed };
     // initial group: almost always empty
     let init = match rng.below(40) {
         0 => {
@@ -1197,11 +1332,26 @@ fn gen_seq(rng: &mut Rng, maxlen: usize) -> (Sx, Vec<String>) {
     let mut ops = vec![sx::atom("ops")];
     ops.extend(g.ops.iter().map(|o| o.sx()));
     let mut groups = vec![sx::atom("groups")];
-    groups.extend(g.groups);
+    if g.typed {
+        g.tags.push("rtype:typed".into());
+        for gr in &g.groups {
+            let gl = gr.as_list().unwrap();
+            let mut v = vec![gl[0].clone(), gl[1].clone()];
+            v.extend(gl[2..].iter().map(annotate_typed));
+            groups.push(sx::list(v));
+        }
+    } else {
+        g.tags.push("rtype:value".into());
+        groups.extend(g.groups.clone());
+    }
     g.tags.push(format!("seq:len={}", match g.ops.len() { 0..=2 => "1-2", 3..=6 => "3-6", _ => "7-12" }));
     g.tags.sort();
     g.tags.dedup();
-    (sx::tagged("seq", vec![sx::list(objs), sx::list(ops), sx::list(groups), wbudget]), g.tags)
+    let mut fields = vec![sx::list(objs), sx::list(ops), sx::list(groups), wbudget];
+    if g.typed {
+        fields.push(sx::tagged("rtype", vec![sx::atom("typed")]));
+    }
+    (sx::tagged("seq", fields), g.tags)
 }
 
 /// programs for the thread cases: every request carries its thread number and a unique token
@@ -1313,7 +1463,7 @@ impl Suite for ClientSuite {
                 }
             }
         }
-        let (n_kind, n_seq, n_gated, n_free) = if ctx.thorough { (3000, 12000, 1500, 300) } else { (600, 2500, 250, 40) };
+        let (n_kind, n_seq, n_gated, n_free) = if ctx.thorough { (6000, 40000, 6000, 1200) } else { (1000, 6000, 600, 80) };
         // every standard error name x every parameter shape, systematically
         for name in STD_ERRORS.iter().chain(["org.example.client.Custom"].iter()) {
             for member in ["interface", "method", "parameter", "x"] {
